@@ -133,6 +133,8 @@ func checkC20(c *Ctx) {
 	c.Rule("C20.R1", "the WKT PARAMETER switch and the PROJ.4 key switch assign the same SR field for corresponding names (standard_parallel_1↔lat_1, …, false_easting↔x_0, scale_factor↔k_0, azimuth↔alpha)")
 	c.Rule("C20.R2", "WKT angular parameters are multiplied by deg2rad and linear/scale ones are not; the false origin is multiplied by ToMeter once, after all sections are parsed, and not reassigned afterwards; UNIT stores its factor into ToMeter for projected systems")
 	c.Rule("C20.R3", "every WKT projection name (Mercator_1SP, Lambert_Conformal_Conic_2SP, Albers_Conic_Equal_Area, Equidistant_Conic, Transverse_Mercator) is registered for the same constructor as its PROJ.4 short name; alias names in the definition registry are bound to the identical *SR")
+	c.Rule("C20.R6", "parameters are applied in textual order: no parser loop that stores into the spatial reference ranges over a map")
+	c.Rule("C20.R7", "the datum-shift list is stored with one element per value written (make(len(list)) filled by the parse loop), never truncated or replaced")
 	c.Rule("C20.R5", "SR.Equal is total and NaN-aware: float fields are equal exactly when both are NaN or neither is and they agree within the ULP bound; slice fields are indexed only after a length-equality test; pointer fields are followed only after nil-parity and non-nil tests")
 	c.Rule("C20.R4", "NewTransform returns the nil (identity) transformer on exactly the paths where Equal is true")
 	p := c.P.Pkg("proj")
@@ -212,6 +214,9 @@ func checkC20(c *Ctx) {
 	c.Floor("C20.R2", 13)
 	c.Floor("C20.R3", 6)
 	a.equalTotal()
+	a.parseOrderAndShift()
+	c.Floor("C20.R6", 1)
+	c.Floor("C20.R7", 2)
 	c.Floor("C20.R5", 3)
 	c.Floor("C20.R4", 1)
 }
